@@ -397,7 +397,11 @@ func (v *Verifier) verifyCase(fi *FuncInfo, con *Contract, rep *FuncReport, case
 		fr.resultV = nil
 		// reachability cover: the path condition at this return must not be contradictory
 		if !(caseIdx >= 0 && caseIdx == len(con.Split)) { // the remainder of an exhaustive split is legitimately infeasible
-			rep.covers = append(rep.covers, &Obligation{Name: rep.Name + caseTag + "#reach", Path: nret - 1, Func: v.curFn, Kind: "cover", Goal: c.False(), Assume: append([]*Term{}, o.pc...), ctx: v.eng.C})
+			rp := o.retPos
+			if o.ctl == CtlNormal || rp == token.NoPos {
+				rp = fi.Decl.End() // fell off the end
+			}
+			rep.covers = append(rep.covers, &Obligation{Name: rep.Name + caseTag + "#reach", Path: nret - 1, Func: v.curFn, Kind: "cover", Goal: c.False(), Assume: append([]*Term{}, o.pc...), ctx: v.eng.C, Pos: v.prog.fset.Position(rp), Timeout: int(rp)})
 		}
 	}
 	if v.curReplay != nil {
@@ -888,11 +892,25 @@ func dischargeAll(reps []*FuncReport, timeoutS int, par int, keepDir string) {
 			groups[o.Name] = append(groups[o.Name], o)
 		}
 		for name, os := range groups {
-			if len(os) > 8 {
-				continue
-			}
-			allRefuted := true
+			// The paths through the LAST return statement (normally the success return) must not all be
+			// refutable; when the function has few return paths, neither may all of them together.
+			last := 0
 			for _, o := range os {
+				if o.Timeout > last {
+					last = o.Timeout
+				}
+			}
+			var check []*Obligation
+			for _, o := range os {
+				if o.Timeout == last {
+					check = append(check, o)
+				}
+			}
+			if len(check) > 12 {
+				check = check[len(check)-12:]
+			}
+			allRefuted := len(check) > 0
+			for _, o := range check {
 				assume := o.Assume
 				if extra := o.ctx.preInstantiate(append(append([]*Term{}, o.ctx.Axioms...), assume...), o.Goal, instRounds, 200); len(extra) > 0 {
 					assume = append(append([]*Term{}, assume...), extra...)
@@ -911,7 +929,10 @@ func dischargeAll(reps []*FuncReport, timeoutS int, par int, keepDir string) {
 				}
 			}
 			if allRefuted {
-				rep.Vacuity = "VACUOUS: every return path of " + name + " has a contradictory path condition (inconsistent contracts, invariants or assumptions)"
+				name += fmt.Sprintf(" (return at %s:%d)", filepath.Base(check[0].Pos.Filename), check[0].Pos.Line)
+			}
+			if allRefuted {
+				rep.Vacuity = "VACUOUS: every path to the last return of " + name + " has a contradictory path condition (inconsistent contracts, invariants or assumptions)"
 			}
 		}
 	}
